@@ -211,12 +211,19 @@ class DecoderTimeout(Exception):
     """a decoder call did not return (reported as a failing input, never a harness hang)"""
 
 
+EXPIRED = [0]
+
+
 @contextlib.contextmanager
 def time_limit(seconds=20):
-    """watchdog around implementation calls (main thread, Unix)"""
+    """watchdog around implementation calls (main thread, Unix).  After a few expirations in one run the limit
+    drops to 2 s: an implementation that hangs on many inputs must not turn a check into hours of waiting."""
     import signal
+    if EXPIRED[0] >= 6:
+        seconds = min(seconds, 2)
 
     def handler(signum, frame):
+        EXPIRED[0] += 1
         raise DecoderTimeout(f'no answer within {seconds} s')
     try:
         old = signal.signal(signal.SIGALRM, handler)
